@@ -319,7 +319,7 @@ func (f *vfFramer) Feed(p []byte) [][]byte {
 	var out [][]byte
 	for len(f.buf) >= 4 {
 		l := binary.BigEndian.Uint32(f.buf)
-		if l == 0 || l > 256*1024+64 {
+		if l == 0 || l > 4<<20 { // replies may exceed the 256 KiB message limit when a server is configured with a larger maximum payload
 			f.Bad = true
 			return out
 		}
